@@ -1457,3 +1457,208 @@ Proof.
     + exact (lit_ok_intro [120]%N eq_refl).
   - repeat constructor; cbn; reflexivity.
 Qed.
+
+(* ==========================================================================================
+   Coverage round: answers with other bodies, retries of a batch, the plugin behind its own batcher,
+   Start()'s default index value
+   ========================================================================================== *)
+
+(* ---- the answers a sink takes for success: 200..202 with the plain body (kind 0) or with a body its
+   response reader accepts (the odd kinds); every other answer — also a 2xx one whose body the reader
+   rejects (the even kinds) — is an error of the request *)
+Lemma is_ok_status_spec st :
+  is_ok_status st = true <->
+  exists k s, st = 1000 * k + s /\ 200 <= s <= 202 /\ (k = 0 \/ k = 1 \/ k = 3 \/ k = 5 \/ k = 7).
+Proof.
+  unfold is_ok_status, answer_status, answer_kind. split.
+  - intro H.
+    assert (Hdm := Z.div_mod st 1000 ltac:(lia)).
+    assert (Hm := Z.mod_pos_bound st 1000 ltac:(lia)).
+    exists (st / 1000), (st mod 1000).
+    destruct (0 <=? st) eqn:H0; [|discriminate H].
+    destruct (st <? 8000) eqn:H8; [|discriminate H].
+    destruct (200 <=? st mod 1000) eqn:H2; [|discriminate H].
+    destruct (st mod 1000 <=? 202) eqn:H3; [|discriminate H].
+    cbn [andb] in H.
+    split; [lia|]. split; [lia|].
+    assert (Hk : 0 <= st / 1000 <= 7) by lia.
+    assert (Hc : st / 1000 = 0 \/ st / 1000 = 1 \/ st / 1000 = 2 \/ st / 1000 = 3 \/ st / 1000 = 4
+                 \/ st / 1000 = 5 \/ st / 1000 = 6 \/ st / 1000 = 7) by lia.
+    destruct Hc as [E|[E|[E|[E|[E|[E|[E|E]]]]]]]; rewrite E in H; cbn in H; try discriminate H; lia.
+  - intros (k & s & -> & Hs & Hk).
+    assert (Hc : s = 200 \/ s = 201 \/ s = 202) by lia.
+    destruct Hk as [->|[->|[->|[->| ->]]]]; destruct Hc as [->|[->| ->]]; reflexivity.
+Qed.
+
+Lemma rejected_answers_fail k s :
+  200 <= s <= 202 -> (k = 2 \/ k = 4 \/ k = 6) -> is_ok_status (1000 * k + s) = false.
+Proof.
+  intros Hs Hk. assert (Hc : s = 200 \/ s = 201 \/ s = 202) by lia.
+  destruct Hk as [->|[->| ->]]; destruct Hc as [->|[->| ->]]; reflexivity.
+Qed.
+
+Lemma answer_kinds :
+  (forall st, is_ok_status st = true <->
+     exists k s, st = 1000 * k + s /\ 200 <= s <= 202 /\ (k = 0 \/ k = 1 \/ k = 3 \/ k = 5 \/ k = 7))
+  /\ (forall k s, 200 <= s <= 202 -> (k = 2 \/ k = 4 \/ k = 6) -> is_ok_status (1000 * k + s) = false)
+  /\ is_ok_status 413 = false /\ is_ok_status 400 = false /\ is_ok_status 204 = false /\ is_ok_status 199 = false.
+Proof. split; [exact is_ok_status_spec|]. split; [exact rejected_answers_fail|]. repeat split; reflexivity. Qed.
+
+(* a rejected 2xx answer makes ES / http out() return the error (the batch is offered again) and splunk
+   as well; the same answer accepted ends the exchange *)
+Lemma rejected_answer_is_retried k s :
+  200 <= s <= 202 -> (k = 2 \/ k = 4 \/ k = 6) ->
+  out_ret_es (1000 * k + s) true = 1 /\ out_ret_splunk (1000 * k + s) true = 1.
+Proof.
+  intros Hs Hk. assert (Hc : s = 200 \/ s = 201 \/ s = 202) by lia.
+  destruct Hk as [->|[->| ->]]; destruct Hc as [->|[->| ->]]; split; reflexivity.
+Qed.
+
+(* ---- a batch that is offered again: every attempt carries the same payload ---------------------- *)
+(* a sink that sends the whole payload of the batch in one request, whatever the buffer held before and
+   whatever the answers are *)
+Definition sends_whole (out : out_fn) (payload : list ev -> bytes) : Prop :=
+  forall batch prev script, exists a, out batch prev script = Ok a
+    /\ at_buf a = payload batch /\ map rq_body (at_reqs a) = [payload batch].
+
+(* what the retrying batcher's calls look like *)
+Definition retried (out : out_fn) (payload : list ev -> bytes) (tries : nat) (batch : list ev) (prev : bytes)
+  (script : list Z) : Prop :=
+  let '(atts, p, s, ok) := attempts out tries batch prev script in
+  ok = true
+  /\ Forall (fun r => exists a, r = Ok a /\ map rq_body (at_reqs a) = [payload batch]) atts
+  /\ (tries <> O -> atts <> [] /\ p = payload batch)
+  /\ (length atts <= tries)%nat.
+
+Lemma attempts_same_payload out payload (H : sends_whole out payload) :
+  forall tries batch prev script, retried out payload tries batch prev script.
+Proof.
+  unfold retried. induction tries as [|t IH]; intros batch prev script; cbn [attempts].
+  - split; [reflexivity|]. split; [constructor|]. split; [intro C; exfalso; apply C; reflexivity|cbn [length]; lia].
+  - destruct (H batch prev script) as (a & Ha & Hbuf & Hreq). rewrite Ha.
+    destruct (Z.eqb (at_ret a) 1).
+    + specialize (IH batch (at_buf a) (at_script a)).
+      destruct (attempts out t batch (at_buf a) (at_script a)) as [[[rest p] s] ok] eqn:E.
+      destruct IH as (Hok & Hall & Hp & Hlen).
+      split; [exact Hok|]. split.
+      * constructor; [exists a; split; [reflexivity|exact Hreq]|exact Hall].
+      * split.
+        -- intros _. split; [discriminate|].
+           destruct t as [|t'].
+           ++ cbn [attempts] in E. injection E as _ Ep _ _. rewrite <- Ep. exact Hbuf.
+           ++ apply Hp. discriminate.
+        -- cbn [length]. lia.
+    + split; [reflexivity|]. split.
+      * constructor; [exists a; split; [reflexivity|exact Hreq]|constructor].
+      * split; [intros _; split; [discriminate|exact Hbuf]|cbn [length]; lia].
+Qed.
+
+Lemma es_sends_whole c : es_cfg_ok c -> es_split c = false ->
+  sends_whole (es_out c) (fun b => concat (map (es_frame_of c) (deliverable b))).
+Proof.
+  intros Hc Hs batch prev script.
+  destruct (es_out_spec c batch prev script Hc) as (a & E & B & R & _). exists a.
+  split; [exact E|]. split; [exact B|]. rewrite (R Hs). reflexivity.
+Qed.
+
+Lemma http_sends_whole raw :
+  sends_whole (http_out raw false) (fun b => concat (map (frame_http raw) (deliverable b))).
+Proof.
+  intros batch prev script.
+  destruct (http_out_spec raw false batch prev script) as (a & E & B & R & _). exists a.
+  split; [exact E|]. split; [exact B|]. rewrite (R eq_refl). reflexivity.
+Qed.
+
+Lemma file_sends_whole : sends_whole file_out (fun b => concat (map frame_file (deliverable b))).
+Proof. intros batch prev script. exact (file_out_spec batch prev script). Qed.
+
+Lemma splunk_sends_whole cfg : sends_whole (splunk_out cfg) (fun b => concat (map (envelope cfg) (deliverable b))).
+Proof. intros batch prev script. exact (splunk_out_spec cfg batch prev script). Qed.
+
+Lemma gelf_sends_whole : sends_whole gelf_out (fun b => concat (map frame_gelf (deliverable b))).
+Proof. intros batch prev script. exact (gelf_out_spec batch prev script). Qed.
+
+Theorem retried_batch_same_payload :
+  forall tries batch prev script,
+  (forall c, es_cfg_ok c -> es_split c = false ->
+     retried (es_out c) (fun b => concat (map (es_frame_of c) (deliverable b))) tries batch prev script)
+  /\ (forall raw, retried (http_out raw false) (fun b => concat (map (frame_http raw) (deliverable b))) tries batch prev script)
+  /\ retried file_out (fun b => concat (map frame_file (deliverable b))) tries batch prev script
+  /\ (forall cfg, retried (splunk_out cfg) (fun b => concat (map (envelope cfg) (deliverable b))) tries batch prev script)
+  /\ retried gelf_out (fun b => concat (map frame_gelf (deliverable b))) tries batch prev script.
+Proof.
+  intros tries batch prev script. repeat split.
+  - intros c Hc Hs. apply attempts_same_payload, es_sends_whole; assumption.
+  - intro raw. apply attempts_same_payload, http_sends_whole.
+  - apply attempts_same_payload, file_sends_whole.
+  - intro cfg. apply attempts_same_payload, splunk_sends_whole.
+  - apply attempts_same_payload, gelf_sends_whole.
+Qed.
+
+(* ---- the plugin behind its own batcher ---------------------------------------------------------- *)
+Lemma is_nil_true {A} (l : list A) : is_nil l = true <-> l = [].
+Proof. destruct l; cbn; split; intro H; try reflexivity; discriminate. Qed.
+
+Lemma via_out_spec out batch prev script :
+  (deliverable batch = [] -> via_out out batch prev script = Ok (mkAtt [] false 0 prev script))
+  /\ (deliverable batch <> [] -> via_out out batch prev script = out batch prev script).
+Proof.
+  unfold via_out. split; intro H.
+  - rewrite H. reflexivity.
+  - destruct (deliverable batch); [exfalso; apply H; reflexivity|reflexivity].
+Qed.
+
+Lemma via_attempts out : forall tries batch prev script,
+  (deliverable batch <> [] -> attempts (via_out out) tries batch prev script = attempts out tries batch prev script)
+  /\ (deliverable batch = [] -> tries <> O ->
+      attempts (via_out out) tries batch prev script = ([Ok (mkAtt [] false 0 prev script)], prev, script, true)).
+Proof.
+  induction tries as [|t IH]; intros batch prev script; split; intro H.
+  - reflexivity.
+  - intro C. exfalso. apply C. reflexivity.
+  - cbn [attempts]. rewrite (proj2 (via_out_spec out batch prev script) H).
+    destruct (out batch prev script) as [a| |]; try reflexivity.
+    destruct (Z.eqb (at_ret a) 1); [|reflexivity].
+    rewrite (proj1 (IH batch (at_buf a) (at_script a)) H). reflexivity.
+  - intros _. cbn [attempts]. rewrite (proj1 (via_out_spec out batch prev script) H). reflexivity.
+Qed.
+
+(* through the batcher: a batch without a deliverable event makes no request and leaves the worker's buffer
+   and the answers alone; any other batch is offered to out() exactly as in the direct drive, so every attempt
+   carries the payload of the batch *)
+Theorem via_batcher :
+  forall out payload, sends_whole out payload ->
+  forall tries batch prev script,
+  (deliverable batch = [] -> tries <> O ->
+     attempts (via_out out) tries batch prev script = ([Ok (mkAtt [] false 0 prev script)], prev, script, true))
+  /\ (deliverable batch <> [] ->
+      attempts (via_out out) tries batch prev script = attempts out tries batch prev script
+      /\ retried out payload tries batch prev script).
+Proof.
+  intros out payload H tries batch prev script. split.
+  - apply via_attempts.
+  - intro Hd. split; [apply via_attempts; exact Hd|apply attempts_same_payload; exact H].
+Qed.
+
+(* ---- Start(): an empty index_values list is ["@time"] ------------------------------------------- *)
+Lemma es_name_time_only fmt : forall vals k time e1 e2 acc,
+  Forall (fun v => v = ITime) vals -> es_name fmt vals k time e1 acc = es_name fmt vals k time e2 acc.
+Proof.
+  induction fmt as [|c r IH]; intros vals k time e1 e2 acc Hv; cbn [es_name]; [reflexivity|].
+  destruct (N.eqb c PERCENT).
+  - destruct vals as [|v vals']; [reflexivity|].
+    inversion Hv as [|? ? Hv1 Hv2]; subst. cbn [es_piece]. apply IH. exact Hv2.
+  - apply IH. exact Hv.
+Qed.
+
+Theorem es_default_index_value op fmt time sp :
+  let c := mkEs op fmt (es_default_vals []) time sp in
+  es_vals c = [ITime]
+  /\ ((count_pct fmt <= 1)%nat <-> es_cfg_ok c)
+  /\ forall e1 e2, es_header c e1 = es_header c e2.
+Proof.
+  cbn zeta. split; [reflexivity|]. split.
+  - unfold es_cfg_ok. cbn [es_fmt es_vals es_default_vals is_nil length]. reflexivity.
+  - intros e1 e2. unfold es_header, es_append_index_name. cbn [es_fmt es_vals es_time es_op es_default_vals is_nil].
+    rewrite (es_name_time_only fmt [ITime] 0 time e1 e2); [reflexivity|]. constructor; [reflexivity|constructor].
+Qed.
